@@ -54,6 +54,22 @@ pub fn dispatch(op: &str, a: &[&str]) -> Option<Ans> {
             let (pk, sk): ([u8; 32], [u8; 32]) = (arr(&b[0]), arr(&b[1]));
             let k = crypto_box_beforenm(&pk, &sk);
             let p = dryoc::precalc::PrecalcSecretKey::precalculate(&pk, &sk);
+            // related calls first, on this thread: ANOTHER key pair with the same peer key, and the same key pair with another peer key
+            // (every form) — the precomputation has no memory
+            {
+                let mut osk = sk;
+                for x in osk.iter_mut() { *x ^= 0x3c; }
+                let mut opk = pk;
+                opk[0] ^= 0x40;
+                let okp = dryoc::keypair::StackKeyPair::from_secret_key(osk.into());
+                let _ = okp.precalculate(&StackByteArray::from(pk));
+                let _ = dryoc::precalc::PrecalcSecretKey::precalculate(&pk, &osk);
+                let _ = crypto_box_beforenm(&pk, &osk);
+                let skp = dryoc::keypair::StackKeyPair::from_secret_key(sk.into());
+                let _ = skp.precalculate(&StackByteArray::from(opk));
+                let _ = dryoc::precalc::PrecalcSecretKey::precalculate(&opk, &sk);
+                if pk[1] % 2 == 0 { let _ = okp.precalculate(&StackByteArray::from(pk)); }
+            }
             let kp = dryoc::keypair::StackKeyPair::from_secret_key(sk.into());
             let p2 = kp.precalculate(&StackByteArray::from(pk));
             let mut s = [0u8; 32];
